@@ -836,10 +836,32 @@ func (l *List) Present(st funcGen.Stack[Value]) (Value, error) {
 func (l *List) Top(st funcGen.Stack[Value]) (*List, error) {
 	if i, ok := st.Get(1).(Int); ok {
 		return NewListFromIterable(func(st funcGen.Stack[Value]) iterator.Producer[Value] {
-			return iterator.FirstN[Value](l.iterable(st), int(i))
+			return firstN(l.iterable(st), int(i))
 		}), nil
 	}
 	return nil, errors.New("error in top, no int given")
+}
+
+// firstN yields the first n items and stops right after the n-th one.
+// iterator.FirstN asks its parent for item n+1 before it notices that it is
+// done; behind a filtering stage that item may never come, so that e.g.
+// numbers(100000000000).accept(x->x<5).top(5) scans the whole source.
+func firstN(items iterator.Producer[Value], n int) iterator.Producer[Value] {
+	return func(yield iterator.Consumer[Value]) {
+		if n == 0 {
+			return
+		}
+		i := 0
+		for v, err := range items {
+			if !yield(v, err) {
+				return
+			}
+			i++
+			if i == n {
+				return
+			}
+		}
+	}
 }
 
 func (l *List) Skip(st funcGen.Stack[Value]) (*List, error) {
